@@ -30,7 +30,9 @@ META['level_text'] = (
     'hence iteration and the sweeping generator produce exactly that list; random_dna returns a member for every PRNG meeting its contract. '
     'Tie: the model is run against the library on every specification of the small scope (thorough) or a seeded sample (quick) and on random larger ones: '
     'iteration, size, first/next of every valid DNA, validate / use_spec verdicts on every valid DNA and every one-step corruption, random_dna with recorded draws, '
-    'DNA ordering, Sweeping; the direct oracle checks the property text on the library alone (set equality with an independent enumeration).')
+    'DNA ordering, Sweeping; the direct oracle checks the property text on the library alone (set equality with an independent enumeration), including the sweep as a tuning '
+    'backend runs it: k proposals, rewards for a subset (pending trials in the middle and 0..3 at the tail), a fresh Sweeping recovered from the history (in one or two recover calls) '
+    'and continued - history ++ continuation is the enumeration, num_proposals agrees - and the enumeration resumed from a member (spec.iter_dna(dna), dna.iter_dna(), next_dna chain) is the tail after it.')
 META['level_note'] = (
     'Trusted: Coq kernel; extraction cross-checked with vm_compute; the harness. Modelled, not verified: the Python code itself (tied by the correspondence); '
     'next_dna is modelled on structured decisions and compared through the library\'s own DNA constructor (normalize); statements that are only partly proved are '
@@ -167,6 +169,8 @@ def process_spec(job):
     ctx.count(('all_valid', trlib.to_line(str_)), nontrivial=nontriv, kind='all_valid')
     if L is not None and swl is not None:
       oracle_iter(ctx, s, pg, L, swl, size, valid_sds, members, sdesc)
+      if L and (si % 2 == 0 or not P['resume_every_other']):
+        oracle_resume(ctx, s, pg, L, sdesc, rng, P['resume_budget_deep'] if si % 6 == 0 else P['resume_budget']); ctx.oracle += 1
     ctx.oracle += 1
   else:
     size = pg.space_size
@@ -277,7 +281,7 @@ def run(ctx):
   qtr = [int(q['float_bind_kids'])]
   ctx.extra['quirk_flags_from_witness_replay'] = q
   import time
-  P = dict(limit=ctx.scale(100, 400), nwork=ctx.scale(8, 14), ncwork=ctx.scale(3, 4), ncorr=ctx.scale(12, 30), nseeds=ctx.scale(3, 20),
+  P = dict(limit=ctx.scale(100, 400), nwork=ctx.scale(8, 14), ncwork=ctx.scale(3, 4), ncorr=ctx.scale(12, 30), nseeds=ctx.scale(3, 20), resume_budget=ctx.scale(40, 40), resume_budget_deep=ctx.scale(40, 200), resume_every_other=ctx.thorough,
            deadline=time.time() + ctx.scale(70, 1100))
   ctx.extra['per_spec_parameters'] = {k: v for k, v in P.items() if k != 'deadline'}
   # ---- specifications ---------------------------------------------------------------------------
@@ -375,6 +379,121 @@ def oracle_iter(ctx, s, pg, L, swl, size, valid_sds, members, sdesc):
   if swl is not None and [G.freeze(G.dna_to_tree(d)) for d in swl] != trees:
     ctx.hit('C11/sweeping-differs/%s' % mk, 'Sweeping proposes a different sequence than iter_dna for %s' % sdesc, case)
 
+def resume_scenarios(n, rng, budget):
+  """(k proposals, rewarded positions) of an interrupted sweep over n DNAs: j = 0..3 pending trials at the tail, each with no /
+  one / alternating pending trials in the middle; k runs over every prefix length when the space is small, otherwise over
+  0, 1, j, j+1, n//2, n-1, n and random ones, within a budget of about `budget` proposals."""
+  out = []
+  ks_all = list(range(n + 1)) if n <= 8 else sorted(set([0, 1, 2, 3, 4, n // 2, n - 2, n - 1, n] + [rng.randrange(n + 1) for _ in range(3)]))
+  combos = [(k, j, mid) for k in ks_all for j in range(4) if j <= k for mid in ('none', 'one', 'alternate') if mid == 'none' or k - j >= 2]
+  rng.shuffle(combos)
+  combos.sort(key=lambda c: 0 if (c[1] >= 1 and c[0] not in (0, n)) else 1)     # a wall-clock / size cut keeps the interesting ones
+  seen_jm = set(); first = []; rest = []
+  for c in combos:
+    (first if (c[1], c[2]) not in seen_jm else rest).append(c); seen_jm.add((c[1], c[2]))
+  spent = 0
+  for k, j, mid in first + rest:
+    if spent > budget: break
+    done = set(range(k - j))
+    if mid == 'one': done.discard(rng.randrange(k - j - 1))            # never the last rewarded one: the tail stays exactly j long
+    elif mid == 'alternate': done -= set(range(0, k - j - 1, 2))
+    out.append((k, j, mid, done)); spent += n + 2
+  return out
+
+def oracle_resume(ctx, s, pg, L, sdesc, rng, budget):
+  """The sweep as a tuning backend runs it: k proposals, rewards for a subset (pending trials in the middle and at the tail),
+  a FRESH Sweeping recovered from [(dna, reward or None)], continued: history ++ continuation is the enumeration.
+  And the enumeration resumed from a member (iter_dna(dna), dna.iter_dna(), next_dna) is the tail after that member.
+  Cost control (a proposal costs 10-40 ms): short histories are proposed by a live generator, long ones are the first k members of
+  the enumeration (equal to the proposals by the sweeping clause of op 0); the continuation is drained to exhaustion when at most
+  6 DNAs remain and in the first scenario, otherwise 3 proposals are compared; `budget` counts proposals."""
+  from pyglove.core import geno
+  import itertools
+  mk = mode_key(s)
+  trees = [G.freeze(G.dna_to_tree(d)) for d in L]
+  n = len(L)
+  fz = lambda ds: [G.freeze(G.dna_to_tree(d)) for d in ds]
+  spent = 0
+  for si_, (k, j, mid, done) in enumerate(resume_scenarios(n, rng, 10 ** 9)):
+    if spent > budget: break
+    live = k <= 6
+    full = (n - k <= 6) or (si_ == 0 and n <= 60)
+    ncont = n - k + 3 if full else 3
+    spent += (k if live else 0) + min(ncont, n - k + 1) + 1
+    case = dict(op='resume', spec=s, k=k, pending_tail=j, rewarded=sorted(done))
+    ctx.hist('sweep_resume', 'tail-pending=%d/middle-pending=%s' % (j, mid))
+    ctx.hist('sweep_resume_history', ('proposed-live' if live else 'members') + ('/drained' if full else '/3-more'))
+    try:
+      a1 = None
+      if live:
+        a1 = geno.Sweeping(); a1.setup(pg)
+        proposed = []
+        for i in range(k):
+          d = a1.propose(); proposed.append(d)
+          if i in done and (i % 2 == 0): a1.feedback(d, float(i))            # some rewards arrive at once, the others later, out of order
+        for i in sorted(done, reverse=True):
+          if i % 2 == 1: a1.feedback(proposed[i], float(i))
+      else:
+        proposed = L[:k]
+      history = [(d, float(i) if i in done else None) for i, d in enumerate(proposed)]
+      cont1 = None
+      if live and si_ == 0:          # the interrupted generator simply goes on
+        cont1 = []
+        try:
+          for _ in range(ncont): cont1.append(a1.propose())
+        except StopIteration:
+          pass
+      a2 = geno.Sweeping(); a2.setup(pg)
+      half = rng.randrange(len(history) + 1) if (k + j) % 3 == 0 else len(history)
+      a2.recover(history[:half])                                             # recover may be called several times (several sources of history)
+      if half < len(history): a2.recover(history[half:])
+      cont2 = []
+      try:
+        for _ in range(ncont):
+          d = a2.propose(); cont2.append(d)
+          if len(cont2) % 2: a2.feedback(d, 1.0)
+      except StopIteration:
+        pass
+    except Exception as e:   # pylint: disable=broad-except
+      ctx.hit('C11/sweeping-resume-raises/%s' % type(e).__name__, 'sweeping %d of %d, %d pending at the tail, recovering and continuing raises %s: %s (spec %s)' % (k, n, j, type(e).__name__, str(e)[:100], sdesc), case)
+      return
+    for who, cont, algo in (('interrupted', cont1, a1), ('recovered', cont2, a2)):
+      if cont is None: continue
+      whole = fz(proposed) + fz(cont)
+      want = trees if full else trees[:k + 3]
+      if whole != want:
+        kind = 'repeats' if len(set(whole)) != len(whole) else 'skips' if len(whole) < len(want) else 'differs'
+        ctx.hit('C11/sweeping-resume/%s/%s/tail-pending=%s/middle-pending=%s' % (who, kind, 'yes' if j else 'no', mid),
+                'after %d proposals (rewards for %s; %d pending at the tail) the %s sweep continues with %s instead of %s: %d DNAs so far, the enumeration has %d at this point (space size %d; spec %s)'
+                % (k, sorted(done), j, who, [str(d) for d in cont[:2]], [str(d) for d in L[k:k + 2]], len(whole), len(want), n, sdesc), case)
+        return
+      if algo.num_proposals != len(want):
+        ctx.hit('C11/sweeping-resume/%s/num_proposals' % who, 'the %s sweep handed out %d DNAs overall but reports num_proposals = %d (spec %s)' % (who, len(want), algo.num_proposals, sdesc), case)
+        return
+  # the enumeration resumed from a member
+  idx = list(range(n)) if n <= 5 else sorted(set([0, n - 2, n - 1, rng.randrange(n), rng.randrange(n)]))
+  for i in idx:
+    case = dict(op='resume', spec=s, k=i, pending_tail=0, rewarded=[])
+    cap0 = n if (n <= 5 or i >= n - 2) else 4
+    for how, make in (('spec.iter_dna(dna)', lambda: pg.iter_dna(L[i])), ('dna.iter_dna()', lambda: L[i].iter_dna()),
+                      ('spec.iter_dna(rebuilt dna)', lambda: pg.iter_dna(G.tree_to_dna(G.dna_to_tree(L[i])))),
+                      ('next_dna chain', lambda: _next_chain(L[i]))):
+      cap = cap0 if how == 'spec.iter_dna(dna)' else min(cap0, 2)      # one way runs to the end, the others must start right
+      want = trees[i + 1:i + 1 + cap]
+      try:
+        got = fz(itertools.islice(make(), cap + (1 if cap == n else 0)))
+      except Exception as e:   # pylint: disable=broad-except
+        ctx.hit('C11/iteration-resumed-raises/%s' % type(e).__name__, '%s from member %d (%s) raises %s (spec %s)' % (how, i, L[i], type(e).__name__, sdesc), case); return
+      if got != want:
+        ctx.hit('C11/iteration-resumed-differs/%s' % how.split('(')[0], '%s from member %d (%s) yields %s..., the enumeration continues with %s... (spec %s)' % (how, i, L[i], got[:2], want[:2], sdesc), case); return
+    ctx.hist('iteration_resumed_from', 'first' if i == 0 else 'last' if i == n - 1 else 'middle')
+
+def _next_chain(d):
+  while True:
+    d = d.next_dna()
+    if d is None: return
+    yield d
+
 def oracle_verdict(ctx, s, sdesc, kind, tree, val_ok, bind_ok, e1, e2, members):
   why = G.reject_reason(s, tree)
   member = why is None
@@ -422,6 +541,14 @@ def replay(ctx, rp):
     except StopIteration:
       pass
     oracle_iter(p, s, pg, L, swl, pg.space_size, vs, {G.freeze(G.normalize(sd)) for sd in vs}, sdesc)
+  elif c['op'] == 'resume':
+    L = list(pg.iter_dna())
+    class P2(Probe):
+      def hist(self, *a): pass
+    p = P2()
+    for seed in range(6):
+      oracle_resume(p, s, pg, L, sdesc, pyrandom.Random(seed), 600)
+      if p.hits: break
   elif c['op'] == 'verdict':
     tree = _thaw(c['tree'])
     dn = G.tree_to_dna(tree); dn2 = G.tree_to_dna(tree)
